@@ -248,7 +248,7 @@ class HexSys:
         return Step(post, m, viols)
 
     def _p(self, preferred):
-        if preferred in self.props:
+        if preferred in self.props or not self.props:
             return preferred
         return sorted(self.props)[0]
 
